@@ -20,7 +20,10 @@ for _f in sorted(Path("/verif/harness/props").glob("c[0-9][0-9].py")):
         import ast as _ast
         for _node in _ast.parse(_src).body:
             if isinstance(_node, _ast.Assign) and any(isinstance(t, _ast.Name) and t.id == "MANIFEST" for t in _node.targets):
-                CLAIMED[_pid] = eval(compile(_ast.Expression(_node.value), str(_f), "eval"), {"dict": dict})
+                try:
+                    CLAIMED[_pid] = eval(compile(_ast.Expression(_node.value), str(_f), "eval"), {"dict": dict})
+                except NameError:
+                    CLAIMED[_pid] = importlib.import_module(f"harness.props.{_f.stem}").MANIFEST
 
 try:
     from harness.manifest_data import NOT_APPLICABLE
